@@ -153,12 +153,14 @@ func (res *CheckResult) check() {
 			res.checkVarType(*varDecl.Type)
 		}
 
-		if varDecl.Name != nil {
-			res.checkDuplicateVars(*varDecl.Name, varDecl)
-		}
-
+		// the origin is evaluated before the variable exists: its arguments
+		// are checked against the variables declared so far
 		if varDecl.Origin != nil {
 			res.checkVarOrigin(*varDecl.Origin, varDecl)
+		}
+
+		if varDecl.Name != nil {
+			res.checkDuplicateVars(*varDecl.Name, varDecl)
 		}
 	}
 	for _, statement := range res.Program.Statements {
